@@ -1,4 +1,4 @@
-import MlModel.Lemmas.RemoteStateHist
+import MlModel.Lemmas.RemoteStatePin
 /-!
 # C17 — lazy expressions over MUTABLE objects: which expressions are cached is explicit
 
@@ -89,6 +89,37 @@ theorem C17_state_cached_after_clear (id : Nat) (ls : List SLink) (l : SLink) (s
       cases hk : pyLink v' l h' with
       | mk r2 h'' => cases r2 <;> simp
 
+/-- **Evaluates once, afterwards the identical object — across every history that mutates the objects —
+until the cache is cleared.**  Let a cached (non-lazy) member access / call on a flag-free chain be evaluated
+for the first time (a miss) with value `w`, in a cache with room for at least one entry.  Then after ANY
+history of flag-free operations (reads, calls that re-bind attributes or mutate containers, new objects,
+iterators, lazy results — everything except `clear_cache`) evaluating the same expression again returns `w`
+itself and touches no object: the value is pinned, whatever the objects have become.  (Eviction needs a second
+cached expression; that part is `C17_lru` on the shared LRU model.) -/
+theorem C17_state_cached_pinned (id : Nat) (ls : List SLink) (l : SLink) (s : SSt) (v w : PyVal) (h' : Heap)
+    (ops : List Op) (hinv : Lru.Inv s.fnc) (hm : 1 ≤ s.fnc.maxsize) (h : s.hnd.lookup id = some v)
+    (hmiss : Lru.find? s.fnc.data (CExpr.link (chainR (.root id) ls) l true false).key = none)
+    (hfirst : pyChain v (ls ++ [l]) s.heap = (.ok w, h'))
+    (hops : ∀ op ∈ ops, op.plain = true ∧ op ≠ .clear) :
+    (evalC (.link (chainR (.root id) ls) l true false) s).1 = .ok (.val w) ∧
+    (evalC (.link (chainR (.root id) ls) l true false)
+      (remoteRun ops (evalC (.link (chainR (.root id) ls) l true false) s).2).2).1 = .ok (.val w) ∧
+    (evalC (.link (chainR (.root id) ls) l true false)
+      (remoteRun ops (evalC (.link (chainR (.root id) ls) l true false) s).2).2).2.heap =
+      (remoteRun ops (evalC (.link (chainR (.root id) ls) l true false) s).2).2.heap := by
+  have h1 := evalC_cached_first id ls l s v h hmiss
+  rw [hfirst] at h1
+  simp only at h1
+  have hinv' : Lru.Inv (missed s.fnc) := ⟨hinv.size, hinv.nodup, hinv.bound⟩
+  have hfind := Lru.setitem_find?_self hinv' (by simpa [missed] using hm)
+    (CExpr.link (chainR (.root id) ls) l true false).key (RV.val w)
+  have hf2 := remoteRun_fnc ops (evalC (.link (chainR (.root id) ls) l true false) s).2 hops
+  have hfind2 : Lru.find? (remoteRun ops (evalC (.link (chainR (.root id) ls) l true false) s).2).2.fnc.data
+      (CExpr.link (chainR (.root id) ls) l true false).key = some (.val w) := by
+    rw [hf2, h1]; exact hfind
+  obtain ⟨c1, c2⟩ := C17_state_cached_hit _ l false _ _ hfind2
+  refine ⟨by rw [h1], by rw [c1], c2⟩
+
 /-! ## Tests (`decide`) -/
 
 /-- `c = Counter(1)`; `c.total` cached, `c.add(4)`, `c.total` cached again (pinned: 1), `c.total` un-cached
@@ -104,5 +135,13 @@ example : (remoteRun histCached (SSt.init 128)).1 =
 /-- with a cache of capacity 0 nothing is ever pinned -/
 example : (remoteRun histCached (SSt.init 0)).1 =
     [.remote 0, .val (.int 1), .val (.int 5), .val (.int 5), .val (.int 5), .val .none, .val (.int 5)] := by decide
+
+/-- non-vacuity of `C17_state_cached_pinned`: a fresh counter, `c.total` cached, pinned across `c.add(4)` -/
+example : Lru.Inv (remoteRun [.mk .counter [.int 1]] (SSt.init 128)).2.fnc ∧
+    Lru.find? (remoteRun [.mk .counter [.int 1]] (SSt.init 128)).2.fnc.data
+      (CExpr.link (chainR (.root 0) []) (.attr "total") true false).key = none ∧
+    (pyChain (.obj 0) ([] ++ [.attr "total"]) (remoteRun [.mk .counter [.int 1]] (SSt.init 128)).2.heap).1.toOption
+      = some (.plain (.int 1)) :=
+  ⟨Lru.inv_empty 128, by decide, by decide⟩
 
 end MlModel.C17
